@@ -46,11 +46,15 @@ ASSUMPTIONS = [
     'a kept @import may be spelled with a string or url(): only the absolute location it resolves to and its media are compared',
     'comments (the "START @import" markers) are presentation and ignored; an @media block without rules is the same as no rule',
     'sheets of the virtual file system are delivered as str with no HTTP encoding',
+    'not generated (outside the bounds): references without a path (url(#f), url(?q)), paths ending in "/", URLs with characters that need quoting in part 2, '
+    'two @import rules for the same location, import cycles, default @namespace declarations, named @import rules, csscombine(resolveVariables/sourceencoding)',
+    'family B covers interactions of at most k decision sites (k per shape in bounds); family A covers every combination along one import chain',
+    'the same fetch expectations are applied to the phase "parsing" (until resolveImports is entered, marked by a harness-side wrapper around cssutils.resolveImports) and "flattening"',
 ]
 FLOORS = {
-    'quick': {'outcomes': 1000, 'evaluations': 50000, 'set:locations': 7, 'set:contents': 13, 'set:p1.contexts': 5, 'counter:flatten.wrapped': 5000,
+    'quick': {'outcomes': 1000, 'evaluations': 50000, 'set:locations': 7, 'set:contents': 14, 'set:p1.contexts': 5, 'counter:flatten.wrapped': 5000,
               'counter:flatten.kept-missing': 4000, 'counter:flatten.kept-unwrappable': 2000, 'counter:urls.rebased-compared': 30000},
-    'thorough': {'outcomes': 3000, 'evaluations': 500000, 'set:locations': 7, 'set:contents': 13, 'set:p1.contexts': 5, 'counter:flatten.wrapped': 50000,
+    'thorough': {'outcomes': 3000, 'evaluations': 500000, 'set:locations': 7, 'set:contents': 14, 'set:p1.contexts': 5, 'counter:flatten.wrapped': 50000,
                  'counter:flatten.kept-missing': 40000, 'counter:flatten.kept-unwrappable': 20000, 'counter:urls.rebased-compared': 300000},
 }
 
@@ -114,7 +118,7 @@ def _case_size(case):
     """simplest-first order of witnesses: fewer sheets / rules, then fewer choices off default, then shorter text"""
     if case.get('kind') == 'flatten':
         tree = case['tree']
-        off = sum(1 for e in _tree_edges(tree) if e != EDGE_DEFAULT) + sum(1 for c in _tree_contents(tree) if c != CONTENT_DEFAULT)
+        off = sum(a != b for e in _tree_edges(tree) for a, b in zip(e, EDGE_DEFAULT)) + sum(1 for c in _tree_contents(tree) if c != CONTENT_DEFAULT)
         return _tree_nodes(tree) * 100000 + off * 10000 + (0 if case['mode'] == MODES[0] else 1000) + len(jdump(case))
     urls = sum(2 if f == 'multi' else 1 for r in case['rules'] for f in r[1:] if f not in ('absent', 'none'))
     return len(case['rules']) * 100000 + len(case['imports']) * 10000 + urls * 1000 + len(jdump(case))
@@ -506,7 +510,7 @@ TOP = 'http://h/d/e/top.css'
 LOCS = ['same', 'child', 'parent', 'sibling', 'absolute', 'root', 'scheme']
 MEDIA = ['', 'print']
 AVAIL = ['present', 'missing']
-CONTENTS = ['rel', 'dotdot', 'dotdot2', 'abs', 'root', 'schemerel', 'qf', 'namespace', 'fontface', 'media', 'charset', 'page', 'empty']
+CONTENTS = ['rel', 'dotdot', 'dotdot2', 'abs', 'root', 'schemerel', 'qf', 'pct', 'namespace', 'fontface', 'media', 'charset', 'page', 'empty']
 EDGE_DEFAULT = ['same', '', 'present']
 CONTENT_DEFAULT = 'rel'
 MODES = [['resolve'], ['combine', False, None], ['combine', False, 'ascii'], ['combine', True, None], ['combine', True, 'ascii']]
@@ -547,6 +551,8 @@ def content_rules(kind, name):
         return None, [style(f'//o3/{name}.png')]
     if kind == 'qf':
         return None, [style(f'{name}.png?q=1#f')]
+    if kind == 'pct':
+        return None, [style(f'my%20{name}.png')]
     if kind == 'namespace':
         return None, [['namespace', 'p', 'urn:n'], style(f'{name}.png', f'p|{name}')]
     if kind == 'fontface':
@@ -748,6 +754,13 @@ def _url_kind(raw):
     return 'relative'
 
 
+def _unquoted(path):
+    """percent escapes removed until nothing changes (one more level is added per @import edge)"""
+    while urllib.parse.unquote(path) != path:
+        path = urllib.parse.unquote(path)
+    return path
+
+
 def _owner(url_abs, vfs, info):
     """(node name, raw url) of the abstract URL that resolves to url_abs (names are unique by construction)"""
     for name, i in info.items():
@@ -857,6 +870,8 @@ def judge_flat(res, case, vfs, info, top, obs, mode):
             d = ref.url_diff(w, g)
             if d == 'query-fragment':
                 sig = 'query-fragment-lost'
+            elif d == 'path' and '%' in (orig or '') and _unquoted(urllib.parse.urlsplit(g).path) == _unquoted(urllib.parse.urlsplit(w).path):
+                sig = 'percent-escape-escaped-again'
             elif d == 'host':
                 sig = f'resolves-to-other-host|import={_edge_class(path)}'
             else:
@@ -898,10 +913,13 @@ def judge_fetch(res, case, vfs, info, top, obs, mode):
                 _viol(res, 'C19.fetch', 'top-sheet-not-fetched-once', case, 1, (parse_log + flat_log).count(top))
             parse_log = [u for u in parse_log if u != top]
     all_log = parse_log + flat_log
+    kept_nested = {t for t, _m in ref.flatten(vfs, top)['imports'] for n, inf in info.items() if inf['url'] == t and len(inf['path']) > 1}
     for u in avail:
         c = all_log.count(u)
         if c != 1:
-            _viol(res, 'C19.fetch', 'available-target-' + ('not-fetched' if c == 0 else 'fetched-more-than-once'), case, {u: 1}, {u: c})
+            # essential ingredient: is it the target of an @import that has to be kept inside an imported sheet?
+            which = 'target-of-kept-nested-import' if u in kept_nested else 'merged-or-top-level-target'
+            _viol(res, 'C19.fetch', 'available-target-' + ('not-fetched' if c == 0 else 'fetched-more-than-once') + '|' + which, case, {u: 1}, {u: c})
             break
     other = [u for u in all_log if u not in avail and u not in missing]
     if other:
